@@ -234,7 +234,14 @@ class World:
         def pure_call(term, _w=self):
             tgt = _w.prog.target(term)
             if tgt is None:
-                return False
+                # a call outside the workspace (std combinators: Option::filter, cmp, conversions ..) that is handed no
+                # mutable reference cannot change the program's memory
+                import re as _re
+                for a_ in term.args:
+                    ty_ = a_.place.ty if a_.place is not None else (a_.j.get("ty") or "")
+                    if _re.match(r"^&('\w+ )?mut ", ty_ or "") or "*mut" in (ty_ or ""):
+                        return False
+                return True
             sm = _w.effects.summary(tgt)
             return not sm["writes"] and not sm["unknown"]
         Cfg.pure_call_hook = staticmethod(pure_call)
